@@ -6,7 +6,10 @@ PROPS = {
                      "dynamic (harness/access): EXHAUSTIVE product of every method of the 11 manifests compiled from the working tree (+ a second NeoFS deployment in vote mode) "
                      "x signer sets {nobody, stranger, single Alphabet member, single Inner Ring key, committee-majority account n/2+1, Alphabet account 2n/3+1, the same two over the NeoFSAlphabet role keys, "
                      "the accounts ONE SIGNATURE SHORT of each of them ((n/2)-of-n, (2n/3)-of-n), named keys alone / one by one / with the wrong multi-signature, every MAXIMAL set not meeting the "
-                     "documented requirement (also through a contract that catches the callee's exception), every MINIMAL set meeting it, vote-mode quorum} x committees {1,3} + the even size 6 on "
+                     "documented requirement (also through a contract that catches the callee's exception), every MINIMAL set meeting it, vote-mode quorum} "
+                     "+ method variants naming an ALREADY EXISTING object (registered container / name / TLD, present candidate, stored report, bound key, stored config key ...) under the same sets "
+                     "+ a ROLE-CHANGE schedule for every method whose requirement depends on the Inner Ring list (audit.put, update of NeoFS/Processing): NeoFSAlphabet role re-designated in block B, the dismissed "
+                     "and the new member both in block B+1 and again in B+2 (dismissed inert, new HALT) x committees {1,3} + the even size 6 on "
                      "update/verify/threshold-sensitive methods (quick) / {1,3,6,7} (thorough), executed as transactions with valid arguments from per-method builders; verify additionally by test "
                      "invocation and as fee-paying transaction sender (Verification trigger); plus argument fuzz under unmet sets: own-account / other-contract / zero-account substitution, one or two "
                      "parameters at their zero value, mutated and random arguments (2 per method quick, 40 thorough). Observed per transaction: VM state, raw storage digest + update counter + NEF checksum of ALL "
